@@ -132,7 +132,7 @@ Definition member_good (l : lang) (m : member) : bool :=
 Definition ckind_ok (l : lang) (k : ckind) : bool :=
   match l, k with
   | _, CPlain => true
-  | (Ts | Js), (CExport | CExportDefault) => true
+  | (Ts | Js), (CExport | CExportDefault | CExprNamed) => true
   | Ts, (CAbstract | CExportAbstract) => true
   | _, _ => false
   end.
@@ -207,4 +207,8 @@ Definition free_rs_block (f : sfile) : bool :=
 Definition free_rs_collision (f : sfile) : bool :=
   negb (is_lang Rs f)
   || forallb (fun s => forallb (fun i => implb (String.eqb (s_name s) (i_self i)) (path_eqb (s_path s) (i_path i))) (f_impls f)) (f_structs f).
+(* no class expression (TS/JS) *)
+Definition is_class_expr (k : ckind) : bool := match k with CExprNamed => true | _ => false end.
+Definition free_ts_class_expr (f : sfile) : bool :=
+  negb (is_tsjs f) || forallb (fun c => negb (is_class_expr (c_kind c))) (f_classes f).
 Definition is_abstract (k : ckind) : bool := match k with CAbstract | CExportAbstract => true | _ => false end.
